@@ -16,7 +16,8 @@ open RSSched Spec Network
 def objectiveRef (nw : Network) (s : Schedule) : Obj :=
   let un := nw.allServiceNodes.map (fun n => Schedule.unservedAt nw n ((s.formationOf n).filterMap s.typeOf?))
   { unserved := sumNat (un.map (·.1)) + sumNat (un.map (·.2))
-    violation := (sumInt (nw.typeIdxs.map (fun vt => (s.transitionOf vt).totalViolation))).toNat
+    violation := (sumInt (nw.typeIdxs.map (fun vt => sumInt ((s.transitionOf vt).cycles.map (fun c =>
+      posMax0 ((cycleCounterRef nw s.tours c.vehicles).getD 0)))))).toNat
     vehicles := s.vehicles.length
     costs := sumNat (s.tours.map (fun p => p.2.costs)) + nw.numberOfServiceNodes * nw.cStaff }
 
